@@ -41,6 +41,8 @@ type Scenario struct {
 	// IgnoreDeadlock: executions that end in a dead-lock are counted but not reported (the scenario belongs to a
 	// property that does not speak about hangs; the hang itself is decided by C12)
 	IgnoreDeadlock bool
+	// MaxSeconds: a lower time budget for this scenario than the check's (0 = the check's budget)
+	MaxSeconds float64
 }
 
 type SchedCheck struct {
@@ -395,6 +397,9 @@ func choicesOf(pts []vrt.PointRec, n int) ([]uint8, []uint8) {
 }
 
 func (sc *Scenario) explore(a schedArg) (out schedOut) {
+	if sc.MaxSeconds > 0 && sc.MaxSeconds < a.Budget {
+		a.Budget = sc.MaxSeconds
+	}
 	deadline := time.Now().Add(time.Duration(a.Budget * float64(time.Second)))
 	out.Bound = sc.Bound
 	race := newRaceWatch()
